@@ -240,9 +240,9 @@ type (
 
 func (t *TerminalParamDetails) parse(count uint8, body []byte) error {
 	index := 0
-	if len(t.OtherContent) == 0 {
-		t.OtherContent = make(map[uint32]ParamContent[[]byte])
-	}
+	// 每次解析都从空的参数列表开始 只保留用户设置的回调
+	*t = TerminalParamDetails{ParamParseBeforeFunc: t.ParamParseBeforeFunc}
+	t.OtherContent = make(map[uint32]ParamContent[[]byte])
 	for index < len(body) {
 		if index+5 > len(body) {
 			return protocol.ErrBodyLengthInconsistency
